@@ -4,7 +4,7 @@ import json, os, re, subprocess, time, resource
 VERIF = os.path.dirname(os.path.dirname(os.path.abspath(__file__)))
 INC = os.path.join(VERIF, "include")
 
-DEFAULT_CHECKS = ["--bounds-check", "--pointer-check", "--pointer-overflow-check", "--signed-overflow-check",
+DEFAULT_CHECKS = ["--bounds-check", "--pointer-check", "--signed-overflow-check",
                   "--div-by-zero-check", "--undefined-shift-check", "--pointer-primitive-check"]
 # checks cbmc 6 enables by default that we switch off explicitly where they are not UB in C++
 DEFAULT_OFF = ["--no-built-in-assertions"]
@@ -69,7 +69,7 @@ def run_job(job):
     cmd3 = ["cbmc", base + ".b.gb", "--json-ui", "--trace"] + flags
     if spec.solver:
         cmd3 += [spec.solver] if isinstance(spec.solver, str) else list(spec.solver)
-    cmd3 += ["--object-bits", str(spec.objbits or 10)]
+    cmd3 += ["--object-bits", str(spec.objbits or 10), "--no-malloc-may-fail"]
     rc, so, se, dt = run(cmd3, spec.timeout)
     res["cmds"].append(" ".join(cmd3))
     res["time"] = time.time() - t0
